@@ -24,7 +24,7 @@ OVERRIDES.update({
 
 
 def caps(tier):
-    return dict(rest=42, store=3, wide=50) if tier == "quick" else dict(rest=52, store=3, wide=62)
+    return dict(rest=42, store=3, wide=50, same=42) if tier == "quick" else dict(rest=52, store=3, wide=62, same=42)
 
 
 def _j(v):
@@ -89,7 +89,7 @@ def make_queries(tier):
 
     def q_png_same_size_replacement(E):
         """two stores of the same length written into the same asset: the files differ only inside the manifest region"""
-        data, rest = K.png_input(E, C["rest"])
+        data, rest = K.png_input(E, C["same"])
         s1 = E.str("store1", C["store"], "bytes")
         s2 = E.str("store2", C["store"], "bytes")
         if E.mode != "symbolic":
@@ -108,8 +108,9 @@ def make_queries(tier):
             E.prove("bytes outside the manifest region are identical", z3.BoolVal(len(a) == len(b) and a[:o] == b[:o] and a[o + n:] == b[o + n:]))
             return
         I = E.I
-        I.loop_bound = NCH + 3
-        valid, st, ncabx = K.valid_png(data.e, NCH)
+        SCH = C["same"] // 12
+        I.loop_bound = SCH + 3
+        valid, st, ncabx = K.valid_png(data.e, SCH)
         E.assume(valid)
         E.assume(s1.e.n == s2.e.n)
         w1, o1 = K.run_write(E, data, s1)
